@@ -9,6 +9,7 @@
   (bundled voice and perturbed copies), with the GV iteration's model tied bit-for-bit at stage level.
 -/
 import Jb.Proofs.Engine
+import Jb.Proofs.Gv
 
 set_option linter.unusedSectionVars false
 
@@ -41,5 +42,24 @@ theorem no_eligible_par (m : MlpgMatrix K) (gvParam : List (MeanVari K)) (gvSwit
 theorem no_gv_ignores_weight (gw gw' thr : K) (s : StreamIn K) (durs : List Nat) (h : s.gv = none) :
     mlpgCreate gw thr s durs = mlpgCreate gw' thr s durs :=
   mlpgCreate_no_gv gw gw' thr s durs h
+
+/-- **`conv_gv` restores exactly the target variance.** With at least one eligible frame, positive
+    current variance and a square root that squares back, after the first GV step the variance over the
+    eligible frames is exactly `gv_mean · gv_weight`, their mean is unchanged, and ineligible frames are
+    untouched. (The five Newton-like steps that follow trade this off against the HMM likelihood; that
+    the result stays within 20 % is the tested clause.) -/
+theorem conv_gv_hits_target (par : List K) (sw : List Bool) (gm : K)
+    (hlen : par.length = sw.length) (hpos : 0 < (sw.filter id).length)
+    (hsqrt : ∀ x : K, 0 ≤ x → Transc.sqrt x * Transc.sqrt x = x)
+    (hv : 0 < (calcGv par sw (sw.filter id).length).2)
+    (hr : 0 ≤ gm / (calcGv par sw (sw.filter id).length).2) :
+    calcGv (convGv par sw (sw.filter id).length gm) sw (sw.filter id).length =
+      ((calcGv par sw (sw.filter id).length).1, gm) :=
+  convGv_variance par sw gm hlen hpos hsqrt hv hr
+
+theorem conv_gv_keeps_ineligible (par : List K) (sw : List Bool) (gvLen : Nat) (gm : K) (i : Nat)
+    (hlen : par.length = sw.length) (hi : sw[i]? = some false) :
+    (convGv par sw gvLen gm)[i]? = par[i]? :=
+  convGv_ineligible par sw gvLen gm i hlen hi
 
 end Jb.C12
